@@ -304,6 +304,10 @@ fn samples_for(args: &CheckArgs, n: u64) -> Vec<serde_json::Value> {
     out
 }
 
+fn stride_of(args: &CheckArgs) -> u64 {
+    args.workers as u64
+}
+
 pub struct Reported {
     pub violations: Vec<(String, String)>, // (signature, replay path)
     pub known: Vec<(String, String)>,      // (signature, what)
@@ -372,6 +376,89 @@ pub fn check(args: &CheckArgs) -> i32 {
     // 2. The seeded search.
     let mut agg = run_workers(args);
 
+    // 2b. C09 only: a sample of the cases is run again, each alone in a fresh process. The
+    // result must not depend on what the process did before ("repeated runs in fresh
+    // processes"): state that survives from one build to the next would show here.
+    let mut fresh_compared = 0u64;
+    if args.property == "C09" {
+        let sample = match args.tier {
+            Tier::Quick => 400u64,
+            Tier::Thorough => 6000,
+        }
+        .min(args.cases);
+        let step = (args.cases / sample.max(1)).max(1);
+        let in_history: BTreeMap<u64, u64> = agg.case_digests.iter().copied().collect();
+        let indices: Vec<u64> = (0..sample).map(|k| k * step).filter(|i| in_history.contains_key(i)).collect();
+        let mismatches: std::sync::Mutex<Vec<(u64, u64)>> = std::sync::Mutex::new(vec![]);
+        let next = std::sync::atomic::AtomicUsize::new(0);
+        std::thread::scope(|s| {
+            for _ in 0..args.workers.max(1) {
+                s.spawn(|| loop {
+                    let k = next.fetch_add(1, std::sync::atomic::Ordering::Relaxed);
+                    let Some(&index) = indices.get(k) else { break };
+                    let (code, out) = run_child(
+                        &[
+                            "worker",
+                            &args.property,
+                            args.tier.name(),
+                            &args.seed.to_string(),
+                            &index.to_string(),
+                            "1000000007",
+                            &(index + 1).to_string(),
+                            &format!("{}/replays/raw-fresh", args.verif_dir),
+                        ],
+                        CASE_WALL_CLOCK_CAP,
+                    );
+                    if code != Some(0) {
+                        continue; // killed runs are reported by the main search
+                    }
+                    let digest = out
+                        .lines()
+                        .find_map(|l| l.strip_prefix("E "))
+                        .and_then(|j| serde_json::from_str::<CaseReport>(j).ok())
+                        .map(|r| r.log_digest);
+                    if let Some(d) = digest {
+                        if in_history.get(&index) != Some(&d) {
+                            mismatches.lock().unwrap().push((index, d));
+                        }
+                    }
+                });
+            }
+        });
+        fresh_compared = indices.len() as u64;
+        let _ = std::fs::remove_dir_all(format!("{}/replays/raw-fresh", args.verif_dir));
+        let mut mismatches = mismatches.into_inner().unwrap();
+        mismatches.sort();
+        for (index, _) in mismatches.into_iter().take(3) {
+            let seed = crate::worker::case_seed(args.seed, &args.property, index);
+            let case = crate::props::generate(&args.property, seed, args.tier);
+            let class = "differs-in-fresh-process".to_string();
+            let detail = format!(
+                "case {index}: outcome or output differs between the run inside a worker's history and the run alone in a fresh process"
+            );
+            let mut f = crate::replay::ReplayFile {
+                format: 1,
+                property: args.property.clone(),
+                signature: crate::findings::signature(&case, &class, &detail),
+                class: class.clone(),
+                detail: detail.clone(),
+                minimised: false,
+                history: Some(crate::replay::History {
+                    tier: args.tier.name().to_string(),
+                    seed: args.seed,
+                    offset: index % stride_of(args),
+                    stride: stride_of(args),
+                    index,
+                }),
+                case,
+            };
+            f.minimised = false;
+            let path = format!("{raw_dir}/{}-{}-{}-fresh.json", args.property, args.seed, index);
+            let _ = std::fs::write(&path, serde_json::to_string_pretty(&f).unwrap());
+            agg.violations.push((index, class, detail, path));
+        }
+    }
+
     // 3. Killed runs become violations with a regenerated case file.
     for (index, how) in agg.killed.clone() {
         let seed = crate::worker::case_seed(args.seed, &args.property, index);
@@ -405,7 +492,8 @@ pub fn check(args: &CheckArgs) -> i32 {
         let (index, raw_path) = &members[0];
         let final_path = format!("{replay_dir}/{}-{}-{}.json", args.property, args.seed, index);
         let mut sig_final = sig.clone();
-        if args.minimise {
+        let history_dependent = sig.contains("differs-in-fresh-process");
+        if args.minimise && !history_dependent {
             let (code, out) = run_child(
                 &["minimise", raw_path, &final_path],
                 Duration::from_secs(180),
@@ -512,6 +600,7 @@ pub fn check(args: &CheckArgs) -> i32 {
             "counters": agg.counters,
             "killed": agg.killed,
             "regressions_replayed": regressions_run,
+            "cases_rerun_alone_in_a_fresh_process": fresh_compared,
             "violation_groups": group_summary,
             "known_findings_matched": reported.known.iter().map(|(s, _)| s).collect::<Vec<_>>(),
             "event_log_digest": format!("{:016x}", agg.log_digest),
